@@ -311,7 +311,7 @@ func init() {
 	core.Register(&core.Property{
 		ID:    "C08",
 		Level: "exploration",
-		Rule: "nestings of 2 and 3 (thorough: also 4) layouts built bottom-up (each layout: steps prep / sub / final, step sub delegated to a sublayout signed by the functionary's key, links in <step>.<keyid8>/, one inspection with a marker per level); one defect from {sublayout signed by a wrong key, expired ten minutes ago, rule violation, failing inspection command, violated inspection rule, threshold not met, missing link, link signed by an unauthorized key, tampered link} at every level x every step; parent rules of the 'true summary' flavour (must hold) and of the 'inner artifact' flavour (must fail); a sublayout offered by an unauthorized functionary next to honest evidence (must not be followed: no sublayout_enter, no marker); threshold-2 step with one plain link + one sublayout (agreeing / disagreeing); threshold-1 step with an honest plain link plus a (sound / expired / incomplete) sublayout from a second authorized functionary; threshold-2 step with the same sublayout from two functionaries, a link missing in one directory only (repeated for map order); x 2 wrappers x 2 entry points. Oracle: ground truth by construction + markers + sublayout_enter events + trace automaton. " +
+		Rule: "nestings of 2 and 3 (thorough: also 4) layouts built bottom-up (each layout: steps prep / sub / final, step sub delegated to a sublayout signed by the functionary's key, links in <step>.<keyid8>/, one inspection with a marker per level); one defect from {sublayout signed by a wrong key, expired ten minutes ago, rule violation, failing inspection command, violated inspection rule, threshold not met, missing link, link signed by an unauthorized key, tampered link} at every level x every step; parent rules of the 'true summary' flavour (must hold) and of the 'inner artifact' flavour (must fail); a sublayout offered by an unauthorized functionary next to honest evidence (must not be followed: no sublayout_enter, no marker); threshold-2 step with one plain link + one sublayout (agreeing / disagreeing); threshold-1 step with an honest plain link plus a (sound / expired / incomplete) sublayout from a second authorized functionary; threshold-2 step with the same sublayout from two functionaries, a link missing in one directory only (repeated for map order); the innermost layout re-defining the key id of the root's prep functionary with other key material (its evidence counts, a link signed with the root's material does not); a sublayout whose summary reports its product under sha512 only while the parent's evidence uses sha256 (rejected at the parent); x 2 wrappers x 2 entry points. Oracle: ground truth by construction + markers + sublayout_enter events + trace automaton. " +
 			"non-trivial = at least one sublayout entered or deliberately not entered; distinct = (depth, defect, level, step, flavour, special, wrapper, entry point)",
 		Assumptions: []string{"sublayouts are signed with keys (the library looks the key up in the parent's keys section); certificate-authorized sublayout signers are not exercised"},
 		Workers:     func(string) int { return 16 },
